@@ -19,6 +19,8 @@ def monitor(trace):
     names = [t.split(':')[1] for t in tk if t.startswith('E:')]
     if any(t.startswith('ESCAPED') for t in tk):
         return 'exception escaped the iterator'
+    if 'HANG' in tk:
+        return 'the real code blocked (no progress in wall-clock time although all waiting is simulated): iteration never terminates'
     if 'INCOMPLETE' in tk:
         return 'iteration did not terminate although the transport ended'
     if not names or names[0] != 'connecting':
@@ -79,6 +81,7 @@ def explore(res, tier, seed, model_ok=True):
     nrand = 400 if tier == 'quick' else 6000
     res.rule = ('exhaustive: every sequence of <= %d server steps over a 12-symbol alphabet (good/rejecting/garbage reply, text, fragment, continuation, ping, close, invalid frame, silence, EOF, recv error) '
                 'x %d application reaction plans, always followed by EOF; random: %d histories of up to 10 steps with timers, write failures, connect failures, selector errors and random reactions; '
+                'timeouts must end the iteration also when the Close/ping write fails and when the server trickles a frame that never completes; a write fault at each write index x each kind of call at Ready x with/without negotiated compression (a blocked call is detected by a wall-clock deadline: HANG); '
                 'judged by a monitor automaton written from the property; non-trivial = history reaching Ready or containing a fault; distinct by operation line') % (depth, len(REACTION_PLANS), nrand)
     scs = []
     base = Scenario([])
@@ -108,7 +111,43 @@ def explore(res, tier, seed, model_ok=True):
             b = Scenario([], poll=poll, prate=2, ptimeout=pt)
             env = [('wait', 0, ('data', b.good_reply()))] + [('wait', poll, None)] * ((pt // poll) + 4)
             scs.append(Scenario(env, {}, poll=poll, prate=2, ptimeout=pt)); ntimeout += 1
+    # ... also when the Close / the ping could not be written, and when the server keeps the socket readable with
+    # bytes that never complete a frame (a 60000-byte frame arriving one byte per second)
+    big = server_frame(2, b'z' * 60000)
+    for ct in (2, 5):
+        for poll in (1, 5):
+            for wf in ((), (1,)):
+                for trickle in (False, True):
+                    if not wf and not trickle:
+                        continue
+                    b = Scenario([], poll=poll, prate=0, ctimeout=ct)
+                    n = ct + 4 * poll + 4
+                    tail = [('wait', 1, ('data', big[i:i + 1])) for i in range(n)] if trickle else [('wait', poll, None)] * n
+                    scs.append(Scenario([('wait', 0, ('data', b.good_reply()))] + tail, {2: [('close', 1000, ('b', b'bye'))]}, poll=poll, prate=0, ctimeout=ct, wfail=wf)); ntimeout += 1
+    for pt in (2, 4):
+        for poll in (1, 3):
+            for wf in ((), (1,), (2,)):
+                for trickle in (False, True):
+                    if not wf and not trickle:
+                        continue
+                    b = Scenario([], poll=poll, prate=2, ptimeout=pt)
+                    n = pt + 4 * poll + 6
+                    tail = [('wait', 1, ('data', big[i:i + 1])) for i in range(n)] if trickle else [('wait', poll, None)] * n
+                    scs.append(Scenario([('wait', 0, ('data', b.good_reply()))] + tail, {}, poll=poll, prate=2, ptimeout=pt, wfail=wf)); ntimeout += 1
     res.count('timeout_must_terminate', ntimeout)
+    # a failing write at every write index, for every kind of call the application makes at Ready, with and
+    # without negotiated compression (the failing call must come back, the iteration must end)
+    nwf = 0
+    for ext in (b'', b'Sec-WebSocket-Extensions: permessage-deflate\r\n'):
+        for acts in ([('send_text', ('s', [104, 105]), True)], [('send_binary', ('b', b'ab' * 40), True), ('send_text', ('s', [120]), False)],
+                     [('send_ping', ('b', b'p'))], [('close', 1000, ('b', b'bye'))], [('send_text', ('s', [104]), True), ('close', 1001, ('b', b''))]):
+            for wf in ((1,), (2,), (1, 2)):
+                for after in ('silence', 'ping', 'close'):
+                    b = Scenario([], prate=0, ctimeout=5, compress=bool(ext))
+                    nxt = {'silence': [('wait', 5, None)] * 3, 'ping': [('wait', 0, ('data', server_frame(9, b'q')))] + [('wait', 5, None)] * 3,
+                           'close': [('wait', 0, ('data', server_frame(8, close_payload(1000, b''))))]}[after]
+                    scs.append(Scenario([('wait', 0, ('data', b.good_reply(ext)))] + nxt + [('wait', 1, ('eof',))], {2: acts}, prate=0, ctimeout=5, compress=bool(ext), wfail=wf)); nwf += 1
+    res.count('write_fault_at_each_call', nwf)
     pairs = coreutil.run_pairs(scs, model_ok)
     for k, (js, line, real, model) in enumerate(pairs):
         if isinstance(real, dict):
